@@ -66,6 +66,7 @@ type Exec struct {
 	rx map[*Value]*rxProg // compiled regexps by *regexp.Regexp pointer
 
 	MapOrderMax int // enumerate all iteration orders up to this map size
+	MapOrderSticky bool // one (chosen) iteration order per map object until it is mutated
 	fatalEv      *fatalInfo
 	callStack    []*ssa.Function
 	initRunning  map[*ssa.Package]bool
